@@ -34,6 +34,8 @@ from props.common import U, is_rejection, mkgeom
 
 ID = "C10"
 RULE = (
+    "[environment / representations] every label-export case is executed once more with DeprecationWarning turned into an error (same result required); "
+    "whole-number bounding boxes are handed to crowsetta as Python ints; two explicit keys differing only in letter case occur in one run. "
     "import: every ordered list (repeats included) of 0..n lattice elements per entry point x unit x file samplerate x "
     "time expansion, each run with adjust_time_expansion = True, False and omitted; cascade: every combination of "
     "empty_labels (default / custom containing the label / custom not containing it), tag_fn (absent / tag / list / "
